@@ -86,6 +86,47 @@ pub fn strategy() -> BoxedStrategy<Case> {
         .boxed()
 }
 
+/// many overlapping loops: winding numbers in the hundreds (counters narrower than 32 bits wrap at 128 / 256),
+/// built as repeated subpaths or as one subpath running round the same polygon again and again
+pub fn stack_strategy() -> BoxedStrategy<Case> {
+    (6i32..=32, 6i32..=32)
+        .prop_flat_map(|(w, h)| {
+            let poly = prop_oneof![
+                2 => (vertex(w, h, 0), 8i32..=80, 8i32..=80).prop_map(|(a, dw, dh)| vec![(a.0, a.1), (a.0 + dw, a.1), (a.0 + dw, a.1 + dh), (a.0, a.1 + dh)]),
+                1 => prop::collection::vec(vertex(w, h, 0), 3..=4),
+            ];
+            let count = prop::sample::select(vec![100usize, 127, 128, 129, 130, 200, 255, 256, 257, 300]);
+            let bundle = (poly, count, any::<bool>(), any::<bool>());
+            (Just((w, h)), prop::collection::vec(bundle, 1..=3), any::<bool>(), prop::bool::weighted(0.7))
+        })
+        .prop_map(|((w, h), bundles, evenodd, aa)| {
+            let f = |v: i32| v as f32 / 4.0;
+            let mut ops = Vec::new();
+            for (mut poly, count, reverse, spiral) in bundles {
+                if reverse {
+                    poly.reverse();
+                }
+                if spiral {
+                    ops.push(POp::M(f(poly[0].0), f(poly[0].1)));
+                    for k in 0..count * poly.len() {
+                        let p = poly[(k + 1) % poly.len()];
+                        ops.push(POp::L(f(p.0), f(p.1)));
+                    }
+                    ops.push(POp::Z);
+                } else {
+                    for _ in 0..count {
+                        for (i, p) in poly.iter().enumerate() {
+                            ops.push(if i == 0 { POp::M(f(p.0), f(p.1)) } else { POp::L(f(p.0), f(p.1)) });
+                        }
+                        ops.push(POp::Z);
+                    }
+                }
+            }
+            Case { w, h, path: PathSpec { ops, evenodd }, aa }
+        })
+        .boxed()
+}
+
 pub fn render(c: &Case) -> Vec<u32> {
     let mut dt = DrawTarget::new(c.w, c.h);
     let opts = DrawOptions { blend_mode: BlendMode::SrcOver, alpha: 1.0, antialias: if c.aa { AntialiasMode::Gray } else { AntialiasMode::None } };
@@ -191,12 +232,12 @@ pub fn check(c: &Case) -> CheckResult {
 pub fn property(_ctx: &Ctx) -> Property {
     Property {
         id: "C01",
-        rule: "cases: random polygons (1-4 subpaths, 2-8 quarter-grid vertices each; near/straddling/far up to +-4000px; slivers, rects; implicit or explicit close; optional leading line_to), both winding rules, AA and aliased, surfaces 0..64 px plus 257..700 x 1..5 and 1..5 x 257..700, opaque white SrcOver on a transparent fresh target. Oracle: exact rational 4x4 supersampling model (ties and <n*2^-14 slope error accepted either way). Non-trivial: AA case with >=1 pixel whose possible coverage k has 0<k<16, or aliased case with >=1 must-paint and >=1 must-stay pixel; distinct by hash of the whole case.",
+        rule: "cases: random polygons (1-4 subpaths, 2-8 quarter-grid vertices each; near/straddling/far up to +-4000px; slivers, rects; implicit or explicit close; optional leading line_to), both winding rules, AA and aliased, surfaces 0..64 px plus 257..700 x 1..5 and 1..5 x 257..700, opaque white SrcOver on a transparent fresh target. part stack: 1-3 bundles of 100..300 coincident loops (rectangles or 3-4 vertex polygons, either orientation, as repeated subpaths or as one subpath running round the polygon repeatedly; counts 127/128/129, 255/256/257 included) so that winding numbers reach the hundreds and bundles of opposite orientation cancel; run in the checked build and again in the build without overflow checks (where a narrowed counter wraps silently). Oracle: exact rational 4x4 supersampling model (ties and <n*2^-14 slope error accepted either way). Non-trivial: AA case with >=1 pixel whose possible coverage k has 0<k<16, or aliased case with >=1 must-paint and >=1 must-stay pixel; distinct by hash of the whole case.",
         assumptions: vec![
             "cells whose inside-ness depends on a rounding tie or on <n*2^-14 quarter units of accumulated slope error are not judged (counted in undecided_judgements)",
             "vertices within +-4000 px (the property's working coordinate range)",
         ],
-        parts: vec![part("poly", 200_000, 3_000_000, strategy, check)],
+        parts: vec![part("poly", 200_000, 3_000_000, strategy, check), part("stack", 400, 6_000, stack_strategy, check)],
         min_class_fraction: vec![("poly", "partial-coverage-pixel", 0.2), ("poly", "edge-starts-above-row0", 0.05), ("poly", "aliased", 0.1), ("poly", "evenodd", 0.2)],
         panic_is_violation: false,
     }
